@@ -20,4 +20,6 @@ var verifHarnesses = map[string]func(){
 	"VerifC06Prune": VerifC06Prune,
 	"VerifC01Accumulate": VerifC01Accumulate,
 	"VerifC18MapOrder": VerifC18MapOrder,
+	"VerifC17Handshake": VerifC17Handshake,
+	"VerifC17LaunchBinding": VerifC17LaunchBinding,
 }
